@@ -19,6 +19,19 @@ What is proved here (about the model `Cedar/Fmt.lean`):
                              comments*; `toDoc_comments_partial`: all comments survive iff no trailing comma carries
                              one (`lost_comment_example` exhibits the loss).  `toDoc_safe`: the documents are
                              comment-safe.
+  * `policy_tokens`          POLICY LEVEL (model §4: `Annotation`, `VariableDef` with `is`/`==`/`in`, `Cond` with braces and
+                             the hoisted leading comments of the body, `Policy` with both scope layouts and the scope's
+                             trailing comma, mirror of doc.rs as it is now): for every chooser (`policy_tokens_any`), every
+                             line width and indent, the layout of `policyToDoc p` consists of exactly the source tokens
+                             and comments of `p` in source order minus the `,` tokens in trailing position
+                             (`policyAtomsW false true`); `policy_tokens_dropped`: that sequence is a subsequence of the
+                             source with the same comments.
+  * `policy_comments`        every comment attached to any token of the policy CST — including both comments of a dropped
+                             trailing comma — is in every layout, in source order.  `policy_safe`: no token of a policy
+                             layout is swallowed by a comment.
+  * `policies_tokens`        the lift to policy sets as fmt.rs builds them (`renderPolicies`: every policy laid out on its
+    `policies_comments`      own, joined by blank lines, final newline, end-of-file comments), for every chooser
+    `policies_safe`          (`policies_tokens_any`); `policiesToDoc_tokens` for the one-document variant.
   * `pipeline_correct`       abstract pipeline: atom-preserving (up to a parse-invariant, comment-preserving,
                              idempotent token normalisation) ∧ output on comment-free text a function of
                              (normalised tokens, config)  ⇒  same parse ∧ comments preserved ∧ idempotent on
@@ -34,9 +47,11 @@ covered only by the differential / property run of `./check C12`, harness/src/c1
   (U3) the span lookups of utils.rs (`get_comment_at_start`, `get_comment_after_end`, `get_comment_at_end`,
        `get_comment_in_range`) find exactly the token the CST node stands on — the model's CST carries *resolved*
        tokens; the lexer / comment-attachment mirror itself IS checked (`fmt-tokens` op, every generated text);
-  (U4) the parts of doc.rs outside the core: `Policy` (annotations, effect, scope incl. its trailing comma,
-       conditions), `VariableDef`, `Cond`, `Annotation`; `remove_empty_lines`; joining policies; end-of-file
-       comments; `soundness_check`;
+  (U4) `remove_empty_lines` (string level: deletes blank lines outside strings and comments) and `soundness_check`;
+       the policy level of doc.rs (`Policy`, `VariableDef`, `Cond`, `Annotation`), the joining of policies and the
+       end-of-file comments ARE modelled (§4) and covered by the `policy_…`/`policies_…` theorems, with resolved
+       tokens (U3) — there is no differential op for policy-level documents: the harness would have to rebuild the
+       resolved-token CST from cedar's CST, and the layout itself also depends on (U1);
   (U5) the parser depends on the token sequence only, and re-rendering of literals (`007` ↦ `7`) and dropping
        trailing commas do not change the parse.
 -/
